@@ -233,7 +233,8 @@ func (l *Layouter) basicSort(b *types.Basic) Sort {
 		return SBool
 	}
 	if w, _, ok := intWidth(b); ok {
-		if l.bvMode {
+		// plain int (lengths, indices, counts) stays a mathematical integer even in bit-vector mode
+		if l.bvMode && b.Kind() != types.Int && b.Kind() != types.UntypedInt && b.Kind() != types.UntypedRune {
 			return BV(w)
 		}
 		return SInt
